@@ -9,6 +9,7 @@ import (
 	"go/types"
 	"os"
 	"path/filepath"
+	"sort"
 	"strconv"
 	"strings"
 	"time"
@@ -132,93 +133,111 @@ func smtIntToGo(v string) (string, bool) {
 	return "", false
 }
 
-// tryReplay materialises the model of a failed ensures obligation whose
-// function has only scalar parameters, runs the real function in an overlay
-// test and evaluates the violated clause (compiled from the contract text).
+// tryReplay materialises the solver's model as Go values, runs the real
+// function in an overlay test and evaluates the violated clause (compiled from
+// the contract text; old(e) is evaluated on a second, untouched copy of the
+// inputs).  For frame obligations of functions with an empty modifies clause
+// the test checks that the inputs are unchanged after the call.
 func (e *Engine) tryReplay(o *Obligation) (string, bool, string) {
 	c := o.contract
-	cl := o.clause
-	if c == nil || cl == nil || o.Kind != "ensures" {
+	if c == nil || (o.Kind != "ensures" && o.Kind != "frame") {
+		return "", false, ""
+	}
+	if o.Kind == "ensures" && o.clause == nil {
+		return "", false, ""
+	}
+	if o.Kind == "frame" && (len(c.Modifies) != 1 || strings.TrimSpace(c.Modifies[0].Expr) != "") {
 		return "", false, ""
 	}
 	fn := e.funcsByName[c.Key]
-	if fn == nil {
+	if fn == nil || fn.Parent() != nil {
 		return "", false, ""
 	}
-	vals := modelValues(o.Model)
+	vals := getValues(o.Model)
+	var terms []*Term
+	var nodes []*inputNode
+	for _, in := range o.inputs {
+		in.terms(&terms, &nodes)
+	}
+	if len(vals) != len(nodes) || len(nodes) == 0 {
+		return "", false, ""
+	}
+	for i, n := range nodes {
+		n.Value = vals[i]
+	}
+	imports := map[string]bool{"testing": true}
 	var decls []string
-	var argNames []string
-	for _, p := range fn.Params {
-		name := "a_" + p.Name()
-		argNames = append(argNames, name)
-		mv, has := vals["p:"+p.Name()]
-		b, ok := p.Type().Underlying().(*types.Basic)
+	var argNames, preNames []string
+	for _, in := range o.inputs {
+		lit, ok := in.goLiteral(c.Pkg, imports)
 		if !ok {
 			return "", false, ""
 		}
-		tn := types.TypeString(p.Type(), func(pk *types.Package) string {
-			if pk.Path() == c.Pkg {
-				return ""
-			}
-			return pk.Name()
-		})
-		switch {
-		case b.Info()&types.IsString != 0:
-			s := ""
-			if has {
-				if g, ok := smtStringToGo(mv); ok {
-					s = g
-				} else {
-					return "", false, ""
-				}
-			}
-			decls = append(decls, fmt.Sprintf("\tvar %s %s = %s(%s)", name, tn, tn, strconv.Quote(s)))
-		case b.Info()&types.IsInteger != 0:
-			n := "0"
-			if has {
-				if g, ok := smtIntToGo(mv); ok {
-					n = g
-				} else {
-					return "", false, ""
-				}
-			}
-			decls = append(decls, fmt.Sprintf("\tvar %s %s = %s", name, tn, n))
-		case b.Info()&types.IsBoolean != 0:
-			v := "false"
-			if has && strings.TrimSpace(mv) == "true" {
-				v = "true"
-			}
-			decls = append(decls, fmt.Sprintf("\tvar %s %s = %s", name, tn, v))
-		default:
-			return "", false, ""
-		}
-	}
-	if fn.Signature.Recv() != nil {
-		return "", false, ""
+		tn := types.TypeString(in.T, qualifier(c.Pkg))
+		a, p := "a_"+in.Name, "pre_"+in.Name
+		decls = append(decls, fmt.Sprintf("\tvar %s %s = %s", a, tn, lit))
+		decls = append(decls, fmt.Sprintf("\tvar %s %s = %s", p, tn, lit))
+		argNames = append(argNames, a)
+		preNames = append(preNames, p)
 	}
 	nres := fn.Signature.Results().Len()
 	var resNames []string
 	for i := 0; i < nres; i++ {
 		resNames = append(resNames, fmt.Sprintf("r%d", i))
 	}
-	call := fmt.Sprintf("%s(%s)", fn.Name(), strings.Join(argNames, ", "))
+	var call string
+	if fn.Signature.Recv() != nil {
+		call = fmt.Sprintf("%s.%s(%s)", argNames[0], fn.Name(), strings.Join(argNames[1:], ", "))
+	} else {
+		call = fmt.Sprintf("%s(%s)", fn.Name(), strings.Join(argNames, ", "))
+	}
+	if fn.Signature.Variadic() {
+		call = strings.TrimSuffix(call, ")") + "...)"
+	}
 	var body strings.Builder
 	body.WriteString(strings.Join(decls, "\n") + "\n")
 	if nres > 0 {
 		fmt.Fprintf(&body, "\t%s := %s\n", strings.Join(resNames, ", "), call)
+		for _, r := range resNames {
+			fmt.Fprintf(&body, "\t_ = %s\n", r)
+		}
 	} else {
 		fmt.Fprintf(&body, "\t%s\n", call)
 	}
-	all := append(append([]string{}, argNames...), resNames...)
-	fmt.Fprintf(&body, "\tif !%s(%s) {\n\t\tt.Fatalf(\"GVC-REPLAY-VIOLATED %%s with inputs %%#v results %%#v\", %s, []any{%s}, []any{%s})\n\t}\n",
-		cl.StubFn, strings.Join(all, ", "), strconv.Quote(o.ID), strings.Join(argNames, ", "), strings.Join(resNames, ", "))
+	extra := ""
+	if o.Kind == "ensures" {
+		rc, err := c.replayClause(o.clause, "gvcReplayClause")
+		if err != nil {
+			return "", false, ""
+		}
+		extra = rc
+		all := append(append(append([]string{}, argNames...), preNames...), resNames...)
+		fmt.Fprintf(&body, "\tif !gvcReplayClause(%s) {\n\t\tt.Fatalf(\"GVC-REPLAY-VIOLATED %%s\\ninputs: %%#v\\nresults: %%#v\", %s, gvcDump(%s), gvcDump(%s))\n\t}\n",
+			strings.Join(all, ", "), strconv.Quote(o.ID), strings.Join(preNames, ", "), strings.Join(append([]string{"nil"}, resNames...), ", "))
+	} else {
+		imports["reflect"] = true
+		for i := range argNames {
+			fmt.Fprintf(&body, "\tif !reflect.DeepEqual(%s, %s) {\n\t\tt.Fatalf(\"GVC-REPLAY-VIOLATED %%s: the call modified memory reachable from its argument %s\\nbefore: %%s\\nafter:  %%s\", %s, gvcDump(%s), gvcDump(%s))\n\t}\n",
+				argNames[i], preNames[i], o.inputs[i].Name, strconv.Quote(o.ID), preNames[i], argNames[i])
+		}
+	}
+	imports["encoding/json"] = true
+	var imps []string
+	for im := range imports {
+		imps = append(imps, im)
+	}
+	sort.Strings(imps)
+	var ib strings.Builder
+	for _, im := range imps {
+		fmt.Fprintf(&ib, "\t%q\n", im)
+	}
 	pkgName := ""
 	for _, cf := range e.files {
 		if cf.Pkg == c.Pkg {
 			pkgName = cf.PkgName
 		}
 	}
-	test := fmt.Sprintf("//go:build verif\n\npackage %s\n\nimport \"testing\"\n\nfunc TestGvcReplay(t *testing.T) {\n%s}\n", pkgName, body.String())
+	test := fmt.Sprintf("//go:build verif\n\npackage %s\n\nimport (\n%s)\n\nfunc gvcDump(vs ...any) string {\n\tb, _ := json.Marshal(vs)\n\treturn string(b)\n}\n\n%s\nfunc TestGvcReplay(t *testing.T) {\n%s}\n", pkgName, ib.String(), extra, body.String())
 	out, ok := e.runOverlayTest(c, test)
 	return out, ok, test
 }
